@@ -37,6 +37,56 @@ FEATURES = ["!!a", "!!", "!!!b", "(?i)A", "(?i)b", "(a)\\1", "(b)\\1", "(?P<n>b)
 FEATURE_NAMES = ["A", "B", "aa", "bb", "AB", "Ab", "C", "a b", "a\nb", "TEST_1 (m.T)", "a", "x!a", "!!b"]
 
 
+def _rand_regex(rng, depth=2):
+    """a random regular expression over a tiny alphabet: every construct whose meaning depends on where the pattern
+    begins and ends or on being compiled on its own (anchors at either end, top-level alternation, groups, classes,
+    quantifiers, escapes of the line end) - so that no particular shape has to be thought of in advance"""
+    def atom(d):
+        r = rng.random()
+        if r < 0.45 or d == 0:
+            return rng.choice(["a", "b", "c", "a", "b", ".", "\\n", " ", "[ab]", "[^a]", "\\.", "\\$", "!"])
+        if r < 0.65:
+            return "(" + alt(d - 1) + ")"
+        if r < 0.8:
+            return "(?:" + alt(d - 1) + ")"
+        return atom(0) + rng.choice(["*", "+", "?", "{2}"])
+
+    def seq(d):
+        return "".join(atom(d) for _ in range(rng.choice([1, 1, 2, 2, 3])))
+
+    def alt(d):
+        return "|".join(seq(d) for _ in range(rng.choice([1, 1, 1, 2, 3])))
+    body = alt(depth)
+    if rng.random() < 0.5:
+        body = rng.choice(["^", "^", "\\A"]) + body
+    if rng.random() < 0.5:
+        body = body + rng.choice(["$", "$", "\\Z"])
+    if rng.random() < 0.15:
+        body = rng.choice(["(?i)", "(?s)", "(?m)"]) + body
+    if rng.random() < 0.3:
+        body = "!" + body
+    return body
+
+
+def _rand_name(rng):
+    return "".join(rng.choice("aabbc \n.!$A") for _ in range(rng.choice([0, 1, 1, 2, 2, 3, 4])))
+
+
+def grammar_cases(ctx):
+    n = 6000 if ctx.quick() else 120000
+    out = []
+    while len(out) < n:
+        ps = [_rand_regex(ctx.rng) for _ in range(ctx.rng.choice([1, 1, 2, 3]))]
+        try:
+            for p in ps:
+                re.compile(p[1:] if p.startswith("!") else p)
+        except re.error:
+            continue
+        for _ in range(4):
+            out.append((ps, _rand_name(ctx.rng)))
+    return out
+
+
 def _real(patterns, name):
     from zope.testrunner.filter import build_filtering_func
     try:
@@ -84,8 +134,8 @@ def cases(ctx):
 
 
 def run(ctx):
-    implicit = {n: _real([NEVER], n) for n in NAMES + FEATURE_NAMES}
-    todo = list(cases(ctx))
+    todo = list(cases(ctx)) + grammar_cases(ctx)
+    implicit = {n: _real([NEVER], n) for n in set(NAMES + FEATURE_NAMES + [n for _, n in todo])}
     ctx.exhaustive = False
     queries = [_query(ps, n, implicit[n]) for ps, n in todo]
     answers = ctx.driver.batch(queries)
